@@ -124,6 +124,35 @@ type StrictArr [2]int
 
 func (*StrictArr) DisallowUnknownFields() {}
 
+// concrete types that implement error (they are NOT the interface type error: as a result type they are an
+// ordinary result, as the last result type they do not make a function "report an error")
+type ErrStruct struct {
+	Msg string `json:"msg"`
+}
+
+func (*ErrStruct) Error() string { return "errstruct" }
+
+type ErrString string
+
+func (ErrString) Error() string { return "errstring" }
+
+// Quota rejects most values in its own UnmarshalJSON with an error that carries a JSON-RPC code of its own: a
+// rejected parameter is still reported as InvalidParams by the adapters.  (Its descriptor, a declared
+// map[string]int without a DisallowUnknownFields method, is shared with no other declared type: the model's decode
+// oracle is keyed by descriptors.)
+type Quota map[string]int
+
+func (q *Quota) UnmarshalJSON(b []byte) error {
+	switch string(b) {
+	case "{}":
+		*q = Quota{}
+		return nil
+	case "null":
+		return nil
+	}
+	return jrpc2.Errorf(-32001, "quota exceeded")
+}
+
 type regEntry struct {
 	typ  reflect.Type
 	node *tnode
@@ -134,7 +163,7 @@ var registryIndex = map[reflect.Type]int{}
 
 func init() {
 	for _, v := range []any{PlainEmb{}, lowerEmb{}, StrictV{}, StrictP{}, PlainN{}, PtrStrictP(nil), PtrPlainN(nil),
-		EmbV{}, EmbP{}, EmbPtr{}, Mixed{}, TaggedEmb{}, StrictInt(0), StrictMap(nil), NamedInt(0), NamedSlice(nil), StrictArr{}} {
+		EmbV{}, EmbP{}, EmbPtr{}, Mixed{}, TaggedEmb{}, StrictInt(0), StrictMap(nil), NamedInt(0), NamedSlice(nil), StrictArr{}, ErrStruct{}, ErrString(""), Quota(nil)} {
 		t := reflect.TypeOf(v)
 		registryIndex[t] = len(registry)
 		registry = append(registry, regEntry{typ: t})
